@@ -1975,12 +1975,15 @@ func (m *machine) lowerTailCall(si *ssa.Instruction) {
 	}
 
 	isAllRegs := stackSlotSize == 0
+	// The indirect form keeps the callee pointer in r11, which is also the last integer argument register:
+	// when the callee takes that many integer arguments we fall back to a plain call.
+	isR11Free := calleeABI.ArgIntRealRegs < byte(len(intArgResultRegs))
 
 	switch {
 	case isDirectCall && isAllRegs:
 		call := m.allocateInstr().asTailCallReturnCall(directCallee, calleeABI)
 		m.insert(call)
-	case !isDirectCall && isAllRegs:
+	case !isDirectCall && isAllRegs && isR11Free:
 		// In a tail call we insert the epilogue before the jump instruction,
 		// so an arbitrary register might be overwritten while restoring the stack.
 		// So, as compared to a regular indirect call, we ensure the pointer is stored
@@ -1994,7 +1997,7 @@ func (m *machine) lowerTailCall(si *ssa.Instruction) {
 	case isDirectCall && !isAllRegs:
 		call := m.allocateInstr().asCall(directCallee, calleeABI)
 		m.insert(call)
-	case !isDirectCall && !isAllRegs:
+	case !isDirectCall:
 		ptrOp := m.getOperand_Mem_Reg(m.c.ValueDefinition(indirectCalleePtr))
 		callInd := m.allocateInstr().asCallIndirect(ptrOp, calleeABI)
 		m.insert(callInd)
